@@ -1214,6 +1214,16 @@ class FunctionDefinition:
         # error = f'arguments do not match {expected}'
         raise TypeError(f"function '{self.name}' expects {expected} but got {types}")
 
+    def parameter_types(self, args: Tuple[HplExpression]) -> Tuple[DataType]:
+        # for each argument, the union of the parameter types of the overloads that accept the call
+        types = tuple(arg.data_type for arg in args)
+        result = [DataType.NONE] * len(types)
+        for sig in self.overloads:
+            if sig.accepts(types):
+                for i in range(len(types)):
+                    result[i] = result[i] | (sig.parameters[i] if i < sig.arity else sig.variadic)
+        return tuple(result)
+
     def get_parameter_type_string(self) -> str:
         result = []
         for sig in self.overloads:
@@ -1440,6 +1450,9 @@ class HplFunctionCall(HplExpression):
     @arguments.validator
     def _check_arguments(self, _attribute, args: Tuple[HplExpression]):
         self.function.check_arguments(args)
+        # arguments are narrowed to the parameter types, like the operands of operators
+        for arg, t in zip(args, self.function.parameter_types(args)):
+            self._type_check(arg, t, force=True)
 
     def __attrs_post_init__(self):
         object.__setattr__(self, 'data_type', self.function.result)
